@@ -90,8 +90,9 @@ ares_status_t
                                const struct ares_socket_functions_ex *funcs,
                                void                                  *user_data)
 {
-  unsigned int known_versions[] = { 1 };
-  size_t       i;
+  unsigned int  known_versions[] = { 1 };
+  size_t        i;
+  ares_status_t status = ARES_SUCCESS;
 
   if (channel == NULL || funcs == NULL) {
     return ARES_EFORMERR;
@@ -107,6 +108,8 @@ ares_status_t
     return ARES_EFORMERR;
   }
 
+  ares_channel_lock(channel);
+
   memset(&channel->sock_funcs, 0, sizeof(channel->sock_funcs));
 
   /* Copy individually for ABI compliance.  memcpy() with a sizeof would do
@@ -115,7 +118,8 @@ ares_status_t
     if (funcs->asocket == NULL || funcs->aclose == NULL ||
         funcs->asetsockopt == NULL || funcs->aconnect == NULL ||
         funcs->arecvfrom == NULL || funcs->asendto == NULL) {
-      return ARES_EFORMERR;
+      status = ARES_EFORMERR;
+      goto done;
     }
     channel->sock_funcs.version      = funcs->version;
     channel->sock_funcs.flags        = funcs->flags;
@@ -134,7 +138,9 @@ ares_status_t
 
   channel->sock_func_cb_data = user_data;
 
-  return ARES_SUCCESS;
+done:
+  ares_channel_unlock(channel);
+  return status;
 }
 
 static int setsocknonblock(ares_socket_t sockfd, /* operate on this */
@@ -578,11 +584,15 @@ void ares_set_socket_functions(ares_channel_t                     *channel,
                                const struct ares_socket_functions *funcs,
                                void                               *data)
 {
-  if (channel == NULL || channel->optmask & ARES_OPT_EVENT_THREAD) {
+  if (channel == NULL) {
     return;
   }
 
-  channel->legacy_sock_funcs         = funcs;
-  channel->legacy_sock_funcs_cb_data = data;
-  ares_set_socket_functions_ex(channel, &legacy_socket_functions, channel);
+  ares_channel_lock(channel);
+  if (!(channel->optmask & ARES_OPT_EVENT_THREAD)) {
+    channel->legacy_sock_funcs         = funcs;
+    channel->legacy_sock_funcs_cb_data = data;
+    ares_set_socket_functions_ex(channel, &legacy_socket_functions, channel);
+  }
+  ares_channel_unlock(channel);
 }
